@@ -404,6 +404,13 @@ func (s *Server) ServeHTTP(w http.ResponseWriter, r *http.Request) {
 }
 
 func (s *Server) serveHTTP(w http.ResponseWriter, r *http.Request) (int, error) {
+	// a request target of the form "scheme:rest" has no path: r.URL.Path is
+	// empty and the text sits in r.URL.Opaque, where no site address and no
+	// path-scoped directive looks but the proxy does; refuse it
+	if r.URL.Opaque != "" {
+		return http.StatusBadRequest, nil
+	}
+
 	// strip out the port because it's not used in virtual
 	// hosting; the port is irrelevant because each listener
 	// is on a different port.
